@@ -507,6 +507,38 @@ structure Desc where
   glc : Nat := 0
   offset : Nat := 0
   lit : Option Nat := none
+  -- VOP3a / VOP3b (second dword: SRC0 9 bits = `src0`, SRC1, SRC2, OMOD, NEG; first dword: VDST = `vdst`,
+  -- ABS + OP_SEL (VOP3a) or SDST = `sdst` (VOP3b), CLAMP)
+  src1 : Nat := 0
+  src2 : Nat := 0
+  abs : Nat := 0
+  neg : Nat := 0
+  omod : Nat := 0
+  clamp : Nat := 0
+  opsel : Nat := 0
+  -- DS (OFFSET0, OFFSET1, GDS; ADDR, DATA0, DATA1, VDST = `vdst`)
+  offset0 : Nat := 0
+  offset1 : Nat := 0
+  gds : Nat := 0
+  addr : Nat := 0
+  data0 : Nat := 0
+  data1 : Nat := 0
+  -- FLAT / GLOBAL / SCRATCH (OFFSET 13 bits = `offset`, SEG, GLC = `glc`, SLC; ADDR = `addr`, DATA, SADDR, NV/TFE,
+  -- VDST = `vdst`)
+  seg : Nat := 0
+  slc : Nat := 0
+  data : Nat := 0
+  saddr : Nat := 0
+  tfe : Nat := 0
+  -- VOP2 with an SDWA second dword (`sdwa = 1`: the SRC0 field of the first dword says 249 and `src0` is the
+  -- 8-bit SRC0 of the SDWA dword; S0/S1 say that SRC0/VSRC1 name an SGPR)
+  sdwa : Nat := 0
+  s0 : Nat := 0
+  s1 : Nat := 0
+  dstSel : Nat := 0
+  dstUnused : Nat := 0
+  src0Sel : Nat := 0
+  src1Sel : Nat := 0
 deriving Repr, DecidableEq, Inhabited
 
 def bytes32 (w : Nat) : List Nat := [w % 256, w / 256 % 256, w / 65536 % 256, w / 16777216 % 256]
@@ -518,15 +550,35 @@ def encWord (d : Desc) : Nat :=
   else if d.ft == FT_SOP1 then 0xBE800000 + d.sdst * 2 ^ 16 + d.op * 2 ^ 8 + d.ssrc0
   else if d.ft == FT_SOPC then 0xBF000000 + d.op * 2 ^ 16 + d.ssrc1 * 2 ^ 8 + d.ssrc0
   else if d.ft == FT_SOPP then 0xBF800000 + d.op * 2 ^ 16 + d.simm16
-  else if d.ft == FT_VOP2 then d.op * 2 ^ 25 + d.vdst * 2 ^ 17 + d.vsrc1 * 2 ^ 9 + d.src0
+  else if d.ft == FT_VOP2 then d.op * 2 ^ 25 + d.vdst * 2 ^ 17 + d.vsrc1 * 2 ^ 9 + (if d.sdwa == 1 then 249 else d.src0)
   else if d.ft == FT_VOP1 then 0x7E000000 + d.vdst * 2 ^ 17 + d.op * 2 ^ 9 + d.src0
   else if d.ft == FT_VOPC then 0x7C000000 + d.op * 2 ^ 17 + d.vsrc1 * 2 ^ 9 + d.src0
   else if d.ft == FT_SMEM then 0xC0000000 + d.op * 2 ^ 18 + d.imm * 2 ^ 17 + d.glc * 2 ^ 16 + d.sdata * 2 ^ 6 + d.sbase
+  else if d.ft == FT_VOP3a then 0xD0000000 + d.op * 2 ^ 16 + d.clamp * 2 ^ 15 + d.opsel * 2 ^ 11 + d.abs * 2 ^ 8 + d.vdst
+  else if d.ft == FT_VOP3b then 0xD0000000 + d.op * 2 ^ 16 + d.clamp * 2 ^ 15 + d.sdst * 2 ^ 8 + d.vdst
+  else if d.ft == FT_DS then 0xD8000000 + d.op * 2 ^ 17 + d.gds * 2 ^ 16 + d.offset1 * 2 ^ 8 + d.offset0
+  else if d.ft == FT_FLAT then 0xDC000000 + d.op * 2 ^ 18 + d.slc * 2 ^ 17 + d.glc * 2 ^ 16 + d.seg * 2 ^ 14 + d.offset
   else 0
 
-/-- second dword: the second half of an 8-byte format, or the literal -/
+/-- the SDWA dword ("VOP_SDWA" of the GFX9 ISA: SRC0 [7:0], DST_SEL [10:8], DST_U [12:11], CLMP [13], OMOD [15:14],
+    SRC0_SEL [18:16], SRC0_SEXT [19], SRC0_NEG [20], SRC0_ABS [21], S0 [23], SRC1_SEL [26:24], SRC1_SEXT [27],
+    SRC1_NEG [28], SRC1_ABS [29], S1 [31]); a description carries only the fields the decoder supports -/
+def sdwaWord (d : Desc) : Nat :=
+  d.s1 * 2 ^ 31 + d.src1Sel * 2 ^ 24 + d.s0 * 2 ^ 23 + d.src0Sel * 2 ^ 16 + d.dstUnused * 2 ^ 11 + d.dstSel * 2 ^ 8 + d.src0
+
+/-- second dword of the 8-byte vector / memory formats -/
+def hiWord (d : Desc) : Nat :=
+  if d.ft == FT_VOP3a || d.ft == FT_VOP3b then d.neg * 2 ^ 29 + d.omod * 2 ^ 27 + d.src2 * 2 ^ 18 + d.src1 * 2 ^ 9 + d.src0
+  else if d.ft == FT_DS then d.vdst * 2 ^ 24 + d.data1 * 2 ^ 16 + d.data0 * 2 ^ 8 + d.addr
+  else if d.ft == FT_FLAT then d.vdst * 2 ^ 24 + d.tfe * 2 ^ 23 + d.saddr * 2 ^ 16 + d.data * 2 ^ 8 + d.addr
+  else 0
+
+/-- second dword: the second half of an 8-byte format, the SDWA dword, or the literal -/
 def encSecond (d : Desc) : Option Nat :=
-  if d.ft == FT_SMEM then some d.offset else d.lit
+  if d.ft == FT_SMEM then some d.offset
+  else if d.ft == FT_VOP3a || d.ft == FT_VOP3b || d.ft == FT_DS || d.ft == FT_FLAT then some (hiWord d)
+  else if d.ft == FT_VOP2 && d.sdwa == 1 then some (sdwaWord d)
+  else d.lit
 
 def encode (d : Desc) : List Nat :=
   bytes32 (encWord d) ++ (match encSecond d with | some l => bytes32 l | none => [])
@@ -536,7 +588,8 @@ def usesLit (d : Desc) : Bool :=
   if d.ft == FT_SOP2 || d.ft == FT_SOPC then d.ssrc0 == 255 || d.ssrc1 == 255
   else if d.ft == FT_SOP1 then d.ssrc0 == 255
   else if d.ft == FT_VOP1 || d.ft == FT_VOPC then d.src0 == 255
-  else if d.ft == FT_VOP2 then d.src0 == 255 || isKOpcode d.op
+  else if d.ft == FT_VOP2 then d.sdwa != 1 && (d.src0 == 255 || isKOpcode d.op)
+  else if d.ft == FT_SOPK then d.op == 20   -- s_setreg_imm32_b32: the ISA puts SIMM32 behind the first dword
   else false
 
 /-- operand code fits its field and denotes an operand -/
@@ -548,12 +601,30 @@ def fieldsOK (d : Desc) : Bool :=
   else if d.ft == FT_SOP1 then codeOK d.ssrc0 256 && codeOK d.sdst 128
   else if d.ft == FT_SOPC then codeOK d.ssrc0 256 && codeOK d.ssrc1 256
   else if d.ft == FT_SOPP then decide (d.simm16 < 65536)
-  else if d.ft == FT_VOP2 then codeOK d.src0 512 && decide (d.vsrc1 < 256) && decide (d.vdst < 256)
+  else if d.ft == FT_VOP2 then
+    if d.sdwa == 1 then
+      decide (d.src0 < 256) && decide (d.vsrc1 < 256) && decide (d.vdst < 256) && decide (d.s0 < 2) && decide (d.s1 < 2) &&
+      decide (d.dstSel < 7) && decide (d.dstUnused < 3) && decide (d.src0Sel < 7) && decide (d.src1Sel < 7) &&
+      !isKOpcode d.op
+    else codeOK d.src0 512 && decide (d.vsrc1 < 256) && decide (d.vdst < 256)
   else if d.ft == FT_VOP1 then codeOK d.src0 512 && decide (d.vdst < 256) && (d.op != 2 || (getOperand d.vdst).isSome)
   else if d.ft == FT_VOPC then codeOK d.src0 512 && decide (d.vsrc1 < 256)
   else if d.ft == FT_SMEM then
     decide (d.sbase < 64) && codeOK d.sdata 128 && decide (d.imm < 2) && decide (d.glc < 2) &&
     (if d.imm == 1 then decide (d.offset < 2 ^ 20) else decide (d.offset ≤ 101))
+  else if d.ft == FT_VOP3a then
+    (if d.op ≤ 255 then codeOK d.vdst 256 else decide (d.vdst < 256)) &&
+    codeOK d.src0 512 && codeOK d.src1 512 && codeOK d.src2 512 &&
+    decide (d.abs < 8) && decide (d.neg < 8) && decide (d.omod < 4) && decide (d.clamp < 2) && decide (d.opsel < 16)
+  else if d.ft == FT_VOP3b then
+    decide (d.vdst < 256) && codeOK d.sdst 128 && codeOK d.src0 512 && codeOK d.src1 512 && codeOK d.src2 512 &&
+    decide (d.neg < 8) && decide (d.omod < 4) && decide (d.clamp < 2)
+  else if d.ft == FT_DS then
+    decide (d.offset0 < 256) && decide (d.offset1 < 256) && decide (d.gds < 2) && decide (d.addr < 256) &&
+    decide (d.data0 < 256) && decide (d.data1 < 256) && decide (d.vdst < 256)
+  else if d.ft == FT_FLAT then
+    decide (d.offset < 2 ^ 13) && decide (d.seg < 4) && decide (d.glc < 2) && decide (d.slc < 2) && decide (d.tfe < 2) &&
+    decide (d.addr < 256) && decide (d.data < 256) && decide (d.saddr < 128) && decide (d.vdst < 256)
   else false
 
 /-- well-formed description: the opcode is in the decode table for the format, every field fits
@@ -591,6 +662,14 @@ def instOfRow (d : Desc) (row : Row) : Inst :=
       let i := { i with simm16 := some (.int 0 d.simm16) }
       if d.op == 12 then { i with vmcnt := d.simm16 % 16, lkgmcnt := d.simm16 / 256 % 32 } else i
     else if d.ft == FT_VOP2 then
+      if d.sdwa == 1 then
+        { i with isSdwa := true,
+                 src0 := some (if d.s0 != 0 then sreg d.src0 d.src0 0 else vreg d.src0 d.src0 0),
+                 src1 := some (if d.s1 != 0 then sreg d.vsrc1 d.vsrc1 0 else vreg d.vsrc1 d.vsrc1 0),
+                 dst := some (vreg d.vdst d.vdst 0),
+                 dstSel := sdwaSel d.dstSel, dstUnused := d.dstUnused,
+                 src0Sel := sdwaSel d.src0Sel, src1Sel := sdwaSel d.src1Sel }
+      else
       let i := { i with src0 := some (withLit d.lit (opndOf d.src0)), src1 := some (vreg d.vsrc1 d.vsrc1 0),
                         dst := some (vreg d.vdst d.vdst 0) }
       if isKOpcode d.op then { i with imm := true, src2 := some (.lit 0 (d.lit.getD 0)) } else i
@@ -615,14 +694,73 @@ def instOfRow (d : Desc) (row : Row) : Inst :=
       { i with glc := d.glc != 0, imm := d.imm != 0, base := some (sreg (d.sbase * 2) (d.sbase * 2) 2),
                data := some dt,
                offset := some (if d.imm != 0 then .int 0 d.offset else sreg d.offset d.offset 1) }
+    else if d.ft == FT_VOP3a then
+      let dd := if d.op ≤ 255 then opndOf d.vdst else vreg d.vdst d.vdst 0
+      let base : Inst :=
+        { i with dst := some (with64 row.dstW dd), abs := d.abs,
+                 src0Abs := d.abs &&& 1 > 0, src1Abs := d.abs &&& 2 > 0, src2Abs := d.abs &&& 4 > 0,
+                 clamp := d.clamp != 0,
+                 src0 := some (with64 row.src0W (opndOf d.src0)), src1 := some (with64 row.src1W (opndOf d.src1)),
+                 omod := d.omod, neg := d.neg,
+                 src0Neg := d.neg &&& 1 > 0, src1Neg := d.neg &&& 2 > 0, src2Neg := d.neg &&& 4 > 0 }
+      -- VOP3P (packed) rows: OP_SEL in bits 11.., OP_SEL_HI shares the OMOD field (+ bit 14 for three sources)
+      let base : Inst :=
+        if d.op == 944 then { base with opSel := d.opsel % 8, opSelHi := d.omod ||| ((d.opsel / 8) <<< 2) }
+        else if 945 ≤ d.op && d.op ≤ 946 then { base with opSel := d.opsel % 4, opSelHi := d.omod }
+        else base
+      if row.src2W != 0 then { base with src2 := some (with64 row.src2W (opndOf d.src2)) } else base
+    else if d.ft == FT_VOP3b then
+      let base : Inst :=
+        { i with dst := (if d.op > 255 then some (vreg d.vdst d.vdst (if row.dstW == 64 then 2 else 1)) else none),
+                 sdst := some (with64 row.sdstW (opndOf d.sdst)), clamp := d.clamp != 0,
+                 src0 := some (with64 row.src0W (opndOf d.src0)), src1 := some (with64 row.src1W (opndOf d.src1)),
+                 omod := d.omod, neg := d.neg }
+      if d.op > 255 && row.src2W > 0 then { base with src2 := some (with64 row.src2W (opndOf d.src2)) } else base
+    else if d.ft == FT_DS then
+      { i with offset0 := (if dsSeparateOffsets d.op then d.offset0 else d.offset0 + d.offset1 * 256),
+               offset1 := d.offset1, gds := d.gds != 0, addr := some (vreg d.addr d.addr 1),
+               data := (if row.src0W > 0 then some (vreg d.data0 d.data0 (regCountOfWidth row.src0W)) else none),
+               data1 := (if row.src1W > 0 then some (vreg d.data1 d.data1 (regCountOfWidth row.src1W)) else none),
+               dst := (if row.dstW > 0 then some (vreg d.vdst d.vdst (regCountOfWidth row.dstW)) else none) }
     else i
+
+/-- sign extension of the 13-bit FLAT offset to the 32-bit `Offset0` -/
+def signExt13 (raw : Nat) : Nat := if raw &&& (1 <<< 12) != 0 then raw ||| 0xFFFFE000 else raw
+
+/-- registers moved by a FLAT / GLOBAL / SCRATCH opcode (dwordx2 loads/stores and 64-bit atomics: 2, x3: 3, x4: 4;
+    the decoder leaves 0 for the others) -/
+def flatDataCount (op : Nat) : Nat :=
+  if op == 21 || op == 29 || (80 ≤ op && op ≤ 93) then 2
+  else if op == 22 || op == 30 then 3
+  else if op == 23 || op == 31 then 4 else 0
+
+/-- address registers: a 64-bit VGPR pair, or one 32-bit VGPR offset when a scalar base is in use.
+    CDNA3: SADDR = 0x7F is "off", and the FLAT segment (SEG = 0) never uses SADDR; GCN3: SADDR 0x7F or 0 is "off". -/
+def flatAddrCount (c : Bool) (seg saddr : Nat) : Nat :=
+  if c then (if saddr != 0x7F && seg != 0 then 1 else 2) else (if saddr != 0x7F && saddr != 0 then 1 else 2)
+
+/-- the instruction a description denotes on an architecture once its table row is known (FLAT is the one format
+    whose operands depend on the architecture) -/
+def instOfRowArch (c : Bool) (d : Desc) (row : Row) : Inst :=
+  if d.ft == FT_FLAT then
+    { name := row.name, ft := d.ft, opcode := d.op, size := 8,
+      offset0 := signExt13 d.offset, slc := d.slc != 0, glc := d.glc != 0, tfe := d.tfe != 0,
+      saddr := some (.int 0 d.saddr), addr := some (vreg d.addr d.addr (flatAddrCount c d.seg d.saddr)),
+      dst := some (vreg d.vdst d.vdst (flatDataCount d.op)), data := some (vreg d.data d.data (flatDataCount d.op)) }
+  else instOfRow d row
 
 /-- the instruction a well-formed description denotes on an architecture (what decoding its
     encoding must give): the row is the one the architecture's `lookUp` returns -/
 def instOf (c : Bool) (d : Desc) : Inst :=
   match lookUpArch c d.ft d.op with
   | none => default
-  | some row => instOfRow d row
+  | some row => instOfRowArch c d row
+
+/-- the two classes of well-formed descriptions on which the decoder departs from the ISA's packing (kept out of
+    `decode_encode`, refuting `decode_encode_full`): `s_setreg_imm32_b32` (SOPK 20) is followed by a 32-bit SIMM32
+    that the decoder does not consume (size 4), and the SDWA dword's S0 flag is bit 23, where the decoder reads bit 30 -/
+def deviates (d : Desc) : Bool :=
+  (d.ft == FT_SOPK && d.op == 20) || (d.ft == FT_VOP2 && d.sdwa == 1 && d.s0 == 1)
 
 def formatByName (s : String) : Option Nat := (formats.find? (·.name == s)).map (·.ft)
 
@@ -634,7 +772,12 @@ def parseDesc (fmt : String) (toks : List String) : Option Desc :=
     some { ft := ft, op := op, sdst := g "sdst", ssrc0 := g "ssrc0", ssrc1 := g "ssrc1",
            simm16 := g "simm16", src0 := g "src0", vsrc1 := g "vsrc1", vdst := g "vdst",
            sbase := g "sbase", sdata := g "sdata", imm := g "imm", glc := g "glc", offset := g "offset",
-           lit := Util.kvHex? toks "lit" }
+           lit := Util.kvHex? toks "lit",
+           src1 := g "src1", src2 := g "src2", abs := g "abs", neg := g "neg", omod := g "omod", clamp := g "clamp",
+           opsel := g "opsel", offset0 := g "offset0", offset1 := g "offset1", gds := g "gds", addr := g "addr",
+           data0 := g "data0", data1 := g "data1", seg := g "seg", slc := g "slc", data := g "data",
+           saddr := g "saddr", tfe := g "tfe", sdwa := g "sdwa", s0 := g "s0", s1 := g "s1",
+           dstSel := g "dstsel", dstUnused := g "dstunused", src0Sel := g "src0sel", src1Sel := g "src1sel" }
   | _, _ => none
 
 
@@ -709,7 +852,13 @@ def handle (line : String) : String :=
     | none => "bad"
   | "c04" :: "inst" :: fmt :: toks =>
     match parseDesc fmt toks with
-    | some d => if wellFormed d then "ok " ++ (instOf false d).str else "illformed"
+    | some d =>
+      if wellFormed d then (if deviates d then "deviates" else "ok " ++ (instOf false d).str) else "illformed"
+    | none => "bad"
+  | "c04" :: "inst3" :: fmt :: toks =>   -- the same on a CDNA3 disassembler
+    match parseDesc fmt toks with
+    | some d =>
+      if wellFormed d then (if deviates d then "deviates" else "ok " ++ (instOf true d).str) else "illformed"
     | none => "bad"
   | ["c04", "nrows"] => toString (allRows.filter fun r => (lookUp r.ft r.opcode).map (·.name) == some r.name).length
   | _ => "bad"
